@@ -235,6 +235,17 @@ Theorem C10_alloc_failure_recoverable_random {Op Sh V} (F : OpFamily Op Sh V) pl
 Proof. exact (alloc_failure_recoverable_random F plan sigma g e k a g_f e_f k_f v g_ok e_ok). Qed.
 Print Assumptions C10_alloc_failure_recoverable_random.
 
+(* ... and, as in the deterministic case, the failing run is a prefix of the never-failing one:
+   every value visible after the failed call is, slot for slot, a value of the never-failing run
+   (mono ops ops' = every slot holding v in ops holds v in ops') *)
+Theorem C10_alloc_failure_prefix_random {Op Sh V} (F : OpFamily Op Sh V) plan sigma
+  (g : @gstate Op Sh V) e k a g_f e_f k_f v g_ok e_ok :
+  rinv F (g_ops g) e ->
+  forwardA F plan sigma g e k a = (AErr, g_f, e_f, k_f) -> forward F g e a = Some (v, g_ok, e_ok) ->
+  mono (g_ops g_f) (g_ops g_ok).
+Proof. exact (alloc_failure_prefix_random F plan sigma g e k a g_f e_f k_f v g_ok e_ok). Qed.
+Print Assumptions C10_alloc_failure_prefix_random.
+
 Theorem C10_alloc_failures_recoverable_random {Op Sh V} (F : OpFamily Op Sh V) plan
   (g : @gstate Op Sh V) e a g_f e_f v g_ok e_ok :
   rinv F (g_ops g) e -> failed_calls F plan a g e g_f e_f -> forward F g e a = Some (v, g_ok, e_ok) ->
